@@ -139,6 +139,77 @@ def run_history(ctx, cls, flavour, base_seed, ops):
     return
 
 
+def model_history(ctx, base_seed, flavour, ops):
+    """B: the Lean state machine (Model/Mutable.lean) on the same ConvexPolyhedron history."""
+    from common import L
+    rng = np.random.default_rng(base_seed)
+    obj = sc.base_shape(rng, "ConvexPolyhedron", flavour)
+    case = {"cls": "ConvexPolyhedron", "flavour": flavour, "base_seed": int(base_seed), "ops": ops, "model": True}
+
+    def state_tokens(o):
+        heads = [[int(f[0]), int(f[1]), int(f[2])] for f in o.faces]
+        simp = [[int(a), int(b), int(c)] for a, b, c in np.asarray(o.simplices)]
+        return [L(list(np.array(o.vertices))), L(simp), L(heads), L(list(o._equations[:, :3])),
+                L([float(x) for x in o._equations[:, 3]]), L(list(o._simplex_equations[:, :3])),
+                L([float(x) for x in o._simplex_equations[:, 3]]), float(o._volume), float(o._area),
+                np.array(o._centroid)]
+
+    toks = state_tokens(obj)
+    coded = []
+    expect = []
+    for op in ops:
+        kind, name, arg = op
+        if kind == "setvec":
+            coded.append([3, np.array(arg, dtype=float)])
+        elif kind in ("setfac", "setbad"):
+            try:
+                cur = float(getattr(obj, name))
+            except Exception:
+                return  # getter raises: not a modelled step
+            tgt = cur * arg if kind == "setfac" else arg
+            if name == "volume":
+                coded.append([0, float(tgt)])
+            elif name == "surface_area":
+                coded.append([1, float(tgt)])
+            else:
+                coded.append([2, cur, float(tgt)])
+        else:
+            return
+        try:
+            apply_op(obj, op)
+            expect.append(0)
+        except ValueError:
+            expect.append(1)
+        except Exception:
+            return
+    r = ctx.driver.F("cpstate.run", *toks, len(coded), *[x for c in coded for x in c])
+    n = len(coded)
+    log, rest = r[:n], r[n:]
+    ctx.count("model-histories")
+    if list(log) != expect:
+        ctx.disagree("cpstate.run:raise-pattern", case, [list(log), expect])
+        return
+    nv, nf, ns = len(obj.vertices), len(obj.faces), len(obj.simplices)
+    pos = 0
+    def take(k):
+        nonlocal pos
+        out = np.array(rest[pos:pos + k], dtype=float)
+        pos += k
+        return out
+    size = sc.size_of(obj)
+    got = {"vertices": take(3 * nv).reshape(nv, 3), "eqN": take(3 * nf).reshape(nf, 3), "eqD": take(nf),
+           "seqN": take(3 * ns).reshape(ns, 3), "seqD": take(ns), "volume": take(1)[0], "area": take(1)[0],
+           "centroid": take(3)}
+    live = {"vertices": np.array(obj.vertices), "eqN": obj._equations[:, :3], "eqD": obj._equations[:, 3],
+            "seqN": obj._simplex_equations[:, :3], "seqD": obj._simplex_equations[:, 3],
+            "volume": obj._volume, "area": obj._area, "centroid": np.array(obj._centroid)}
+    deg = {"vertices": 1, "eqN": 0, "eqD": 1, "seqN": 0, "seqD": 1, "volume": 3, "area": 2, "centroid": 1}
+    for k in got:
+        if not sc.num_close(got[k], live[k], size ** deg[k] if deg[k] else 1.0, 1e-9):
+            ctx.disagree("cpstate.run:" + k, case, [np.asarray(got[k]).tolist(), np.asarray(live[k]).tolist()])
+            return
+
+
 def run(ctx):
     rng = ctx.rng
     quick = ctx.tier == "quick"
@@ -166,9 +237,13 @@ def run(ctx):
                 ctx.count("cls:" + cls)
                 ctx.count("len:%d" % min(len(ops), 4))
                 run_history(ctx, cls, flavour, base_seed, ops)
+                if cls == "ConvexPolyhedron" and all(o[0] in ("setvec", "setfac", "setbad") for o in ops):
+                    model_history(ctx, base_seed, flavour, ops)
 
 
 def replay(ctx, payload):
     case = payload.get("case", payload)
     ctx.case(case)
     run_history(ctx, case["cls"], case["flavour"], case["base_seed"], case["ops"])
+    if case["cls"] == "ConvexPolyhedron" and all(o[0] in ("setvec", "setfac", "setbad") for o in case["ops"]):
+        model_history(ctx, case["base_seed"], case["flavour"], case["ops"])
